@@ -104,4 +104,10 @@ where
         self.factors.refactor().unwrap();
         self.factors.Dinv.is_finite()
     }
+
+    #[cfg(feature = "verif-hooks")]
+    fn verif_c08_permuted_copy(&self) -> Option<(Vec<T>, Vec<usize>)> {
+        let w = crate::qdldl::verif_hooks::workspace_view(&self.factors);
+        Some((w.triuA.nzval, w.AtoPAPt))
+    }
 }
